@@ -139,12 +139,20 @@ func (r setRules) Less(v1, v2 interface{}) bool {
 // same string here, so this follows the same rules: whole numbers are
 // represented by their value (with negative zero normalized to zero) and all
 // other numbers by the same shortest decimal text that equality compares.
+//
+// Two numbers that are not equal must also produce different strings, because
+// setRules.Less orders values of compound types by their hash bytes: if two
+// distinct whole numbers shared a string (as they would when abbreviated to
+// ten significant digits) then the values containing them would tie, and the
+// iteration order of a set holding both would depend on insertion order.
 func numberHashString(f *big.Float) string {
 	switch {
 	case f.Sign() == 0:
 		return "0"
-	case f.IsInf() || f.IsInt():
+	case f.IsInf():
 		return f.String()
+	case f.IsInt():
+		return f.Text('f', 0)
 	default:
 		return f.Text('f', -1)
 	}
